@@ -9,7 +9,7 @@ override SIM := $(abspath $(SIM))
 B    := $(BUILD)/$(SAN)
 CXX  := g++
 ifeq ($(SAN),asan)
-SANFLAGS := -fsanitize=address,undefined -fno-sanitize=vptr -fno-omit-frame-pointer -fno-sanitize-recover=undefined
+SANFLAGS := -fsanitize=address,undefined -fno-sanitize=vptr -fno-omit-frame-pointer -fno-sanitize-recover=undefined -D_GLIBCXX_SANITIZE_VECTOR
 OPT := -O1
 else ifeq ($(SAN),cov)
 # line/function coverage of /repo's sources under the simulator (development aid: which library code no lane reaches)
